@@ -37,7 +37,7 @@ type c20Op struct {
 
 type c20Case struct{ Ops []c20Op }
 
-var c20Kinds = []string{"child", "child", "random", "random", "nest", "addproc", "addproc", "setmem", "setproc", "setcpu", "usage", "destroy", "destroy", "external", "external-partial", "concurrent-random", "concurrent-new", "reopen", "nest-existing"}
+var c20Kinds = []string{"child", "child", "random", "random", "nest", "addproc", "addproc", "setmem", "setproc", "setcpu", "usage", "destroy", "destroy", "external", "external-partial", "concurrent-random", "concurrent-new", "reopen", "nest-existing", "openexisting", "openexisting"}
 
 func c20GenCase(rt *rapid.T) c20Case {
 	var c c20Case
@@ -296,6 +296,35 @@ func c20Run(c c20Case, w *c20World, v1 bool, rec *vh.Recorder) error {
 				nt = true
 				classes = append(classes, "opened-pre-existing")
 			}
+		case "openexisting":
+			// a second handle on a live group by its full name; or on a name that does not exist (must be an error)
+			rel := h.path
+			if op.K%4 == 0 {
+				rel = filepath.Join(h.path, "never-made")
+			}
+			_, any := w.exists(rel)
+			nh, err := cgroup.OpenExisting(rel, ct)
+			if !any {
+				if err == nil {
+					return vh.Violf("C20:openexisting-of-nothing", "%s: OpenExisting(%q) succeeded although no such group exists", desc(i, op), rel)
+				}
+				continue
+			}
+			if isPartialRel(partial, rel) {
+				continue // exists in some hierarchies only: either answer is the library's choice
+			}
+			if err != nil {
+				return vh.Violf("C20:openexisting-failed", "%s: OpenExisting(%q) of an existing group: %v", desc(i, op), rel, err)
+			}
+			if nh == nil {
+				return vh.Violf("C20:openexisting-nil-handle", "%s: OpenExisting(%q) returned neither a handle nor an error", desc(i, op), rel)
+			}
+			if err := checkNewHandle(i, op, nh, rel, true, false); err != nil {
+				return err
+			}
+			handles = append(handles, &c20Handle{cg: nh, path: rel, created: false})
+			nt = true
+			classes = append(classes, "openexisting")
 		case "random":
 			before := listDirs(h.path)
 			nh, err := h.cg.Random("r*x")
